@@ -537,6 +537,16 @@ func expandRequestData(testCase *conformancev1.TestCase) error {
 				padding := make([]byte, delta)
 				bytesVal = append(bytesVal, padding...)
 			} else {
+				if len(bytesVal) == 0 {
+					// Even with no padding at all, the message is larger than the desired size.
+					return fmt.Errorf("request message #%d: can't shrink to %d bytes; message is %d bytes with no request data",
+						i+1, totalSize, size)
+				}
+				if -delta > int64(len(bytesVal)) {
+					// Can't remove more than all of it. (Removing all of it also
+					// removes the field's tag and length prefix.)
+					delta = -int64(len(bytesVal))
+				}
 				bytesVal = bytesVal[:len(bytesVal)+int(delta)]
 			}
 			reflectReq.Set(field, protoreflect.ValueOfBytes(bytesVal))
